@@ -29,7 +29,10 @@ def sym(ctx, cfg):
     Q, D = setup()
     n, desc, skind, lkind = cfg["n"], cfg["desc"], cfg["skind"], cfg["lkind"]
     zs = [z3.Real("s%d" % i) if skind == "real" else z3.Int("s%d" % i) for i in range(n)]
-    scores = symnp.SArray([SNum(z) for z in zs], symnp.float64 if skind == "real" else symnp.int64)
+    scores = symnp.SArray([SNum(z) for z in zs], symnp.float64 if skind == "real" else symnp.int8 if skind == "int8" else symnp.int64)
+    if skind == "int8":
+        for z in zs:
+            ctx.assume(z3.And(z >= -128, z <= 127))  # the whole range of the dtype, its minimum included
     lo, hi = cfg.get("lrange", (0, 1))
     if lkind == "bool":
         zt = [z3.Bool("t%d" % i) for i in range(n)]
@@ -119,6 +122,8 @@ def harnesses(tier):
             add(n, desc, "real", "bool")
         for n in range(1, nmax):
             add(n, desc, "int", "bool")
+        for n in range(2, nmax):
+            add(n, desc, "int8", "bool")
         for n in range(1, nmax):
             add(n, desc, "real", "int")
             add(n, desc, "real", "float")
@@ -134,7 +139,7 @@ def real_tdc(cfg, inp):
     import mokapot.qvalues as Q
     import mokapot.dataset as D
     n, desc, skind, lkind = cfg["n"], cfg["desc"], cfg["skind"], cfg["lkind"]
-    scores = np.array(inp["scores"], dtype=np.float64 if skind == "real" else np.int64)
+    scores = np.array(inp["scores"], dtype=np.float64 if skind == "real" else np.int8 if skind == "int8" else np.int64)
     tdt = dict(bool=bool, int=np.int64, float=np.float64)[lkind]
     target = np.array(inp["targets"], dtype=tdt)
     tb = [bool(t == 1) for t in inp["targets"]]
